@@ -20,6 +20,8 @@ var mkFuzzTokens = []string{
 	"a", "b", "nomarkup", "select", "plural", "ordinal", "character", "value", "one", "two", "few", "other",
 	"trimwhitespace", "true", "false", "name", "contents",
 	"0", "1", "2", "11", "12", "1.05", "007", "99999999999999999999",
+	"2.3333333333333333333", "2.00000000000000000005", "0.000000000000000000000000001", "9223372036854775807", "9223372036854775808",
+	"1.9223372036854775807", "[a p=2.3333333333333333333/]", "[a p=1.000000000000000000000001]", "[plural value=2.50000000000000000000001 one=a other=\"%\"/]",
 	"é", "中", "😀", "x", "y z", "Name: ",
 	"[a]", "[/a]", "[b]", "[/b]", "[/]", "[a/]", "[a /]", "[b x=1/]", "[a=1]", "[a p=", "[a p=\"q", "[a p=1.", "[a p=1.5 ",
 	"[nomarkup]", "[/nomarkup]", "[ / nomarkup ]", "[select value=1 1=x /]", "[select value=a /]", "[select",
@@ -45,7 +47,8 @@ var (
 	mkFuzzNames = []string{"a", "b", "nomarkup", "select", "plural", "ordinal", "character", "é", "x1", "_"}
 	mkFuzzProps = []string{"value=1", "value=2", "value=11", "value=a", "value=1.5", "value=true", "value=\"a b\"", "value=", "value",
 		"a=b", "a=1", "1=x", "2=\"%\"", "one=x", "one=\"% y\"", "two=z", "few=w", "other=\"%s\"", "other=", "=", "=1",
-		"p=\"q", "p=\"q\\\"r\"", "p=1.05", "p=1.", "p=.5", "name=x", "contents=c", "trimwhitespace=false", "trimwhitespace=true",
+		"p=\"q", "p=\"q\\\"r\"", "p=1.05", "p=1.", "p=.5", "p=3.1415926535897932384626", "p=0.00000000000000000001", "p=12345678901234567890",
+		"value=9223372036854775807", "value=1.0000000000000000000", "name=x", "contents=c", "trimwhitespace=false", "trimwhitespace=true",
 		"trimwhitespace=1", "a=b=c", "é=中"}
 )
 
